@@ -7,17 +7,142 @@ S: random histories of 7-15 public operations on the same objects (construction,
    from_vector, Hamiltonian constructors incl. the encoded Fermi-Hubbard charges, graph-to-MPO conversion, split / merge,
    TDVP and DMRG with quantum numbers ON, truncating two-site variants); after EVERY call the projection of every live
    object is recorded (list lengths, container types, sparsity by the harness's own mask code, boundary charges) and
-   TraceSector.tla evaluates the invariants in every state.
+   TraceSector.tla evaluates the invariants in every state and checks that consecutive projections are related by the
+   Sector.tla action of the logged call.
+S (spec -> code): behaviours produced by `tlc -simulate` on Sector.tla (create / from_vector / in-place / add / apply in
+   every order over three objects) are stepped through real objects; after every action the projection of every live
+   object is compared with the model state.
 """
 import numpy as np
 
-from .. import common, histgen
+from .. import common, histgen, canon, simtrace, tlc
 from ..parallel import validate_chunks, pmap
 
 
 def _hist(arg):
     seed, quick = arg
     return histgen.run_history(common.import_repo(), seed, quick)[0]
+
+
+# ----------------------------------------------------------------------------- spec -> code: behaviours of Sector.tla
+def _reach(steps, L, q0):
+    R = {q0}
+    for _ in range(L):
+        R = {q + s for q in R for s in steps}
+    return R
+
+
+def replay_behaviour(arg):
+    """Step one TLC-generated behaviour of Sector.tla through real objects; compare the projection of every live object with the
+    model state after every action.  Returns (verdict, detail, number of actions replayed)."""
+    b, seed = arg
+    ptn = common.import_repo()
+    rng = np.random.default_rng(seed)
+    L = int(rng.integers(1, 4))
+    has_fv = any(st['last']['op'] == 'from_vector' for _, st in b)
+    qd = [0, 0] if has_fv else [-1, 0, 1]
+    objs = {}
+    done = 0
+    prev_model = None
+    for action, st in b:
+        last = st['last']
+        op, o = last['op'], last['o']
+        if op == 'init':
+            continue
+        model = st['st']
+        zero_before = bool(op == 'inplace' and prev_model is not None and prev_model[o - 1]['zero'])
+        prev_model = model
+        try:
+            if op == 'create':
+                m = model[o - 1]
+                steps = qd if m['cls'] == 'mps' else sorted({x - y for x in qd for y in qd})
+                if m['qL'] not in _reach(steps, L, m['q0']):
+                    return 'skipped', 'boundary charges not reachable with the all-zero physical basis of from_vector', done
+                _, qD = canon.gen_charges(rng, L, len(qd), m['cls'], 'u1', qd=qd, q_start=m['q0'], qtot=m['qL'], maxD=3, dead=False)
+                ctor = ptn.MPS if m['cls'] == 'mps' else ptn.MPO
+                objs[o] = (m['cls'], ctor(qd, qD, fill=0.0 if m['zero'] else 'random', rng=rng))
+            elif op == 'from_vector':
+                v = rng.normal(size=len(qd)**L)
+                objs[o] = ('mps', ptn.MPS.from_vector(len(qd), L, v, tol=float(rng.choice([0.0, 1e-3]))))
+            elif op == 'inplace':
+                cls, x = objs[o]
+                mode = str(rng.choice(['left', 'right']))
+                if cls == 'mps' and rng.random() < 0.5:
+                    x.compress(float(rng.choice([0.0, 1e-2])), mode=mode)
+                else:
+                    x.orthonormalize(mode=mode)
+            elif op == 'add':
+                (ca, xa), (cb, xb) = objs[last['a']], objs[last['b']]
+                objs[o] = (ca, (xa - xb) if last['sub'] else (xa + xb))
+            elif op == 'apply':
+                (ca, xa), (cb, xb) = objs[last['a']], objs[last['b']]
+                objs[o] = (cb, ptn.apply_operator(xa, xb) if cb == 'mps' else (xa @ xb))
+            else:
+                return 'machinery', f'unknown action {op}', done
+        except BaseException as ex:  # noqa
+            return 'violation', f'{op}: the model allows the call, the code raised {type(ex).__name__}: {str(ex)[:80]}', done
+        done += 1
+        live = simtrace.as_set(st['live'])
+        if sorted(live) != sorted(objs):
+            return 'machinery', f'live sets differ: model {sorted(live)} code {sorted(objs)}', done
+        for i in sorted(objs):
+            cls, x = objs[i]
+            m = model[i - 1]
+            p = histgen.project(i, cls, x)
+            arrays = all(isinstance(q, np.ndarray) for q in x.qD)
+            if zero_before and i == o and (m['zero'] != p['zero'] or p['qL'] != [m['qL']] or p['q0'] != [m['q0']]):
+                # InPlace on the zero state: the model chooses the outcome nondeterministically, the code took another branch
+                return 'diverged', 'inplace on the zero state: the code chose another of the outcomes the model allows', done
+            if m['zero'] != p['zero']:
+                # the model is deterministic here only up to accidental zeros (an operator annihilating a state, ...)
+                return 'diverged', f'{op}: zero flag model {m["zero"]} / code {p["zero"]}', done
+            what = None
+            if p['cls'] != m['cls']:
+                what = 'class of the result'
+            elif (m['kind'] == 'ndarray') != arrays:
+                what = 'container kind of the bond quantum numbers'
+            elif m['lenok'] != (p['qlens'] == p['dims'] and p['shapes_ok']):
+                what = 'length of a quantum-number list differs from the dimension it labels'
+            elif not p['sparse_ok']:
+                what = 'a non-zero tensor entry violates the additive quantum-number rule'
+            elif p['q0'] != [m['q0']] or p['qL'] != [m['qL']]:
+                what = f'boundary charges: model ({m["q0"]},{m["qL"]}) code ({p["q0"]},{p["qL"]})'
+            if what:
+                return 'violation', f'after {op} (object {i}): {what}', done
+    return 'ok', '', done
+
+
+def replay_sector(ctx):
+    behaviours = []
+    # most behaviours without zero states (an in-place call on the zero state is nondeterministic in the model and ends the lockstep)
+    for tag, zc, num in (('secsim', '{FALSE}', ctx.pick(400, 6000)), ('secsim0', '{TRUE, FALSE}', ctx.pick(100, 1500))):
+        prefix = ctx.work + '/' + tag
+        r = tlc.run('Sector', ctx.work, tag, workers=1, constants=dict(NOBJ=3, MaxDepth=7, LegacyFromVector='FALSE'), defs=dict(ZeroCreate=zc),
+                    invariants=['LenOK', 'KindOK', 'NeverRaised'], simulate=dict(num=num, file=prefix),
+                    depth=9, seed=ctx.seed + 7, timeout=1500)
+        ctx._account(tag, 'Sector', r, 'simulate')
+        if not r.ok:
+            raise common.SpecError(f'Sector simulation violated {r.violated}')
+        behaviours += simtrace.load_all(prefix)
+    res = pmap(replay_behaviour, [(b, ctx.seed * 7919 + k) for k, b in enumerate(behaviours)])
+    tally = {}
+    for k, (verdict, detail, done) in enumerate(res):
+        tally[verdict] = tally.get(verdict, 0) + 1
+        ctx.traces += 1 if verdict in ('ok', 'violation') else 0
+        if verdict == 'machinery':
+            raise RuntimeError(f'Sector replay: {detail}')
+        if verdict == 'violation':
+            ops = [st['last']['op'] for _, st in behaviours[k]]
+            ctx.violation('replay:' + detail.split(':')[0][:60] + ':' + detail.split(': ', 1)[-1][:60],
+                          f'behaviour {k} of Sector.tla ({ops}): {detail}', dict(behaviour=k, seed=ctx.seed, ops=ops))
+    ctx.notes['sector_behaviours_replayed'] = tally
+    why = {}
+    for verdict, detail, _ in res:
+        if verdict in ('diverged', 'skipped'):
+            why[detail[:90]] = why.get(detail[:90], 0) + 1
+    ctx.notes['sector_replay_cut_short_because'] = why
+    ctx.notes['sector_actions_replayed'] = sum(d for _, _, d in res)
+    ctx.log(f'{len(behaviours)} TLC-simulated behaviours of Sector.tla replayed on real objects: {tally}')
 
 
 def run(ctx):
@@ -27,10 +152,12 @@ def run(ctx):
                 'at least one in-place algorithm applied to the result of an earlier operation; distinct = distinct seed')
     ctx.assumptions += ['sparsity is evaluated by the harness with its own mask code (not pytenet.qnumber) and enters as a flag; '
                         'list lengths, container kinds, pool bookkeeping and boundary charges are compared by TLC']
-    ctx.model('Sector', 'm_hist', constants=dict(NOBJ=3, MaxDepth=ctx.pick(5, 6), LegacyFromVector='FALSE'),
-              invariants=['LenOK', 'KindOK', 'NeverRaised'], coverage=True)
-    ctx.model('Sector', 'm_F3_legacy', constants=dict(NOBJ=2, MaxDepth=3, LegacyFromVector='TRUE'), invariants=['NeverRaised'],
+    ctx.model('Sector', 'm_hist', constants=dict(NOBJ=3, MaxDepth=ctx.pick(5, 6), LegacyFromVector='FALSE'), defs=dict(ZeroCreate='{TRUE, FALSE}'),
+              invariants=['LenOK', 'KindOK', 'NeverRaised'], properties=['BoundaryKept'], view='view', coverage=True)
+    ctx.model('Sector', 'm_F3_legacy', constants=dict(NOBJ=2, MaxDepth=3, LegacyFromVector='TRUE'), defs=dict(ZeroCreate='{FALSE}'), invariants=['NeverRaised'],
               expect_violation='NeverRaised')
+    if ctx.replay is None:
+        replay_sector(ctx)
     seeds = [ctx.replay['replay']['seed']] if ctx.replay is not None else [int(x) for x in rng.integers(1 << 30, size=ctx.pick(700, 6000))]
     traces = pmap(_hist, [(s, ctx.quick) for s in seeds])
     for s, t02 in zip(seeds, traces):
